@@ -12,6 +12,7 @@
 import PsutilModel.Proofs.C20
 import PsutilModel.Proofs.C20Two
 import PsutilModel.Proofs.C20FaultsFixed
+import PsutilModel.Proofs.C20Empty
 namespace Psutil.C20
 open Spec
 
@@ -814,6 +815,7 @@ def identRowOK (tol : Bool) (p : Platform) (row : String × Nat × List String) 
           -- known deviation: the Solaris / AIX decorator says ZombieProcess, the constructor keeps (pid, None)
           frontInit ign 1 (identFault cfg p m call e env) == .built none none false
         else frontInit ign 1 (identFault cfg p m call e env) == Spec.initExpected p e env ign
+          || (Spec.initAlso p call env).contains (frontInit ign 1 (identFault cfg p m call e env))
 
 /-- full strength: what the constructor is left with is what the contract cell says, everywhere -/
 def C20_front_ident_Full : Prop :=
@@ -826,7 +828,8 @@ def C20_front_ident_Full : Prop :=
     cell of that failure says; in the region of finding C20-sunos-aix-exists-means-zombie (Solaris /
     AIX only) the constructor instead keeps `(pid, None)` for a process that is not a zombie. On
     Windows this holds *because* the identity uses `create_time(fast_only=True)`: no slower fall-back
-    hides the permission failure. -/
+    hides the permission failure. One documented extra (`Spec.initAlso`): the Solaris PID-0 psinfo gate answers
+    AccessDenied whenever /proc/0/psinfo cannot be seen, so `Process(0)` is then built with `(0, None)`. -/
 theorem C20_front_ident_partial :
     ∀ p ∈ Platform.all, ctimeRows p ≠ [] ∧ ∀ row ∈ ctimeRows p, identRowOK true p row = true := by
   decide +kernel
@@ -935,5 +938,123 @@ theorem C20_front_send_signal_windows_contract (meth : String) (hm : meth = "sen
 /-- the two methods are in the generated list with exactly that decorator -/
 example : methodOf? .windows "send_signal" = some ⟨"send_signal", ["wrap_exceptions"]⟩ ∧
     methodOf? .windows "kill" = some ⟨"kill", ["wrap_exceptions"]⟩ := by decide +kernel
+
+/-! ## 7. Seeded round 5: a native call that SUCCEEDS with an empty answer, then a failing one
+
+  The statement quantifies over "any native call the method makes". Which calls a method makes depends
+  on what the native layer answers: with an EMPTY answer about the process (no thread, no socket, no
+  open file) the Solaris / AIX layers ask once more whether the process is still there
+  (`if not ret: os.stat(<procfs>/<pid>)`), other methods stop early. `tracesEmpty` (translator fact) holds
+  the call sequence of every such run — one row per (method, pid, emptied call) — and the theorems below
+  quantify over its rows, i.e. over the emptied call as well. -/
+
+/-- full statement: every platform identity × every row of `tracesEmpty` (method, pid, native call whose
+    answer came back empty) × every native call of that run × swept error × pid state × pid-0 listing gives
+    an outcome the specification allows — `Spec.allowed` and nothing else. FALSE of the code as it is on
+    Solaris / AIX for the same reason as `C20_method_faults_within_spec_Full`
+    (`C20_empty_answer_faults_not_full`). -/
+def C20_empty_answer_faults_within_spec_Full : Prop :=
+  ∀ p ∈ Platform.all, ∀ row ∈ tracesEmptyOf p, ∀ m, methodOf? p row.1 = some m →
+    ∀ call ∈ row.2.2.2, ∀ e ∈ sweptErrs p, ∀ env ∈ sweptEnvs row.2.1,
+      Spec.allowed p m.name (Spec.recoverable p m.name call) e env (methodFault cfg p m call e env false).1 = true
+
+/-- **C20_empty_answer_faults_within_spec_partial.** For the code as it is, no call site excluded: for
+    every platform identity, every method, every native call of it whose answer about the process can come
+    back empty (row of `tracesEmpty`), every native call the method makes on THAT run — the liveness
+    re-check included —, every swept error, pid state and pid-0 listing: the outcome is one the
+    specification allows, or, on Solaris / AIX only, ZombieProcess(pid, name, ppid) in the region of
+    finding C20-sunos-aix-exists-means-zombie (`zombieDeviation`), and nothing else. -/
+theorem C20_empty_answer_faults_within_spec_partial :
+    ∀ p ∈ Platform.all, ∀ row ∈ tracesEmptyOf p, ∀ m, methodOf? p row.1 = some m →
+      ∀ call ∈ row.2.2.2, ∀ e ∈ sweptErrs p, ∀ env ∈ sweptEnvs row.2.1,
+        (Spec.allowed p m.name (Spec.recoverable p m.name call) e env (methodFault cfg p m call e env false).1 = true ∨
+         zombieDeviation p e env (methodFault cfg p m call e env false).1 = true) := by
+  intro p hp row hrow m hm call hc e he env henv
+  have h := empty_faults_table p hp row hrow
+  unfold emptyRowOK traceRowOKt emptyRowCalls at h
+  simp only [hm, List.all_eq_true] at h
+  have h2 := h call hc
+  simp only [Bool.false_or, List.all_eq_true] at h2
+  have h3 := h2 e he env henv
+  simpa [faultOKt, faultStrictOKc] using h3
+
+/-- every row names a method of the generated method list (the theorem above is not vacuous through `methodOf?`) -/
+theorem C20_empty_answer_rows_are_methods :
+    ∀ p ∈ Platform.all, ∀ row ∈ tracesEmptyOf p, (methodOf? p row.1).isSome = true := by
+  decide +kernel
+
+/-- **C20_empty_answer_faults_bsd_osx_windows.** FULL strength (strict judgement) wherever the deviation
+    does not exist. -/
+theorem C20_empty_answer_faults_bsd_osx_windows :
+    ∀ p ∈ [Platform.freebsd, .openbsd, .netbsd, .macos, .windows], ∀ row ∈ tracesEmptyOf p, ∀ m, methodOf? p row.1 = some m →
+      ∀ call ∈ row.2.2.2, ∀ e ∈ sweptErrs p, ∀ env ∈ sweptEnvs row.2.1,
+        Spec.allowed p m.name (Spec.recoverable p m.name call) e env (methodFault cfg p m call e env false).1 = true := by
+  intro p hp row hrow m hm call hc e he env henv
+  have hf : p.family ≠ .sunos ∧ p.family ≠ .aix := by
+    simp only [List.mem_cons, List.mem_nil_iff, or_false] at hp
+    rcases hp with rfl | rfl | rfl | rfl | rfl <;> decide
+  rcases C20_empty_answer_faults_within_spec_partial p (Platform.mem_all p) row hrow m hm call hc e he env henv with h | h
+  · exact h
+  · rw [zombieDeviation_only_sunos_aix p e env _ hf.1 hf.2] at h
+    exact absurd h (by decide)
+
+/-- the re-check paths are in the table, and an unreadable /proc/<pid> on the re-check is AccessDenied,
+    an I/O error passes unchanged, a vanished entry is NoSuchProcess: AIX `threads()` after an empty
+    `proc_threads` answer -/
+example : ("threads", 42, "proc_threads", ["proc_threads", "os.stat"]) ∈ tracesEmptyOf .aix ∧
+    ("net_connections", 42, "net_connections", ["net_connections", "os.stat"]) ∈ tracesEmptyOf .aix ∧
+    ("net_connections", 42, "net_connections", ["net_connections", "os.stat"]) ∈ tracesEmptyOf .sunos := by
+  decide +kernel
+
+example : (methodFault cfg .aix ⟨"threads", ["wrap_exceptions"]⟩ "os.stat" ⟨.EACCES, none⟩ ⟨42, .alive, true⟩ false).1 = .ad 42 true ∧
+    (methodFault cfg .aix ⟨"threads", ["wrap_exceptions"]⟩ "os.stat" ⟨.EIO, none⟩ ⟨42, .alive, true⟩ false).1 = .raw ⟨.EIO, none⟩ ∧
+    (methodFault cfg .aix ⟨"threads", ["wrap_exceptions"]⟩ "os.stat" ⟨.ENOENT, none⟩ ⟨42, .gone, true⟩ false).1 = .nsp 42 true := by
+  decide
+
+/-- **C20_empty_answer_faults_not_full.** The strict statement is false of the code as it is: AIX
+    `threads()` on a RUNNING process, empty `proc_threads` answer, the re-check's stat says ENOENT →
+    ZombieProcess where only NoSuchProcess is allowed (same finding as `C20_method_faults_not_full`). -/
+theorem C20_empty_answer_faults_not_full : ¬ C20_empty_answer_faults_within_spec_Full := by
+  intro h
+  have h1 := h .aix (by decide) ("threads", 42, "proc_threads", ["proc_threads", "os.stat"]) (by decide +kernel)
+    ⟨"threads", ["wrap_exceptions"]⟩ (by decide +kernel) "os.stat" (by decide) ⟨.ENOENT, none⟩ (by decide)
+    ⟨42, .alive, true⟩ (by decide)
+  revert h1
+  decide
+
+/-- what a re-check that asks a yes/no question instead (`if not pid_exists(pid): raise NoSuchProcess`)
+    would do with an unreadable /proc/<pid>: the swallowed permission failure comes out as NoSuchProcess,
+    which the specification does not allow at that call (the shape seeded change C20-4 introduces;
+    `inner` has no such site, `C20_path_probes_transcribed` keeps it that way) -/
+example : Spec.allowed .aix "threads" (Spec.recoverable .aix "threads" "os.path.exists") ⟨.EACCES, none⟩ ⟨42, .alive, true⟩
+      (.nsp 42 true) = false ∧
+    Spec.allowed .aix "threads" (Spec.recoverable .aix "threads" "os.path.exists") ⟨.EACCES, none⟩ ⟨42, .alive, true⟩
+      (.ad 42 true) = true := by decide
+
+/-- **C20_path_probes_transcribed.** `os.path.exists / isfile / islink` is a stat() whose failure the
+    caller never sees (answered False). The (identity, method, question) triples that occur in ANY generated
+    call sequence — plain runs, runs with an empty native answer, alternative paths after a first fault —
+    are exactly the ones `Model.pathProbeSites` lists and `Model.inner` transcribes (Solaris: the PID-0
+    psinfo gate of `_proc_basic_info`, the per-fd `islink` of `open_files()`; AIX: the candidate-path
+    `isfile` of `exe()`): an OS query of a method that is moved behind such a question (a liveness
+    re-check written with `pid_exists()`, say) changes a generated call sequence and this stops building. -/
+theorem C20_path_probes_transcribed :
+    ∀ p ∈ Platform.all,
+      (∀ x ∈ pathProbesSeen p, x ∈ pathProbeSites p) ∧ (∀ x ∈ pathProbeSites p, x ∈ pathProbesSeen p) := by
+  intro p hp
+  have h := path_probes_table p hp
+  unfold pathProbesOK at h
+  simp only [Bool.and_eq_true, List.all_eq_true, List.contains_iff_mem] at h
+  exact h
+
+/-- **C20_path_probe_faults_within_spec.** At every transcribed question site a failing stat() — any
+    swept error, pid state, pid-0 listing; PID 0 for the Solaris psinfo gate, which only exists there —
+    leaves the method with an outcome the specification allows (`pathQuestion`: the item is left out and the
+    method returns; `pid0Psinfo`: AccessDenied(pid, name) on PID 0). -/
+theorem C20_path_probe_faults_within_spec :
+    ∀ p ∈ Platform.all, ∀ site ∈ pathProbeSites p, ∀ m, methodOf? p site.1 = some m →
+      ∀ e ∈ sweptErrs p, ∀ env ∈ sweptEnvs (if site.2 = "os.path.exists" then 0 else 42),
+        Spec.allowed p m.name (Spec.recoverable p m.name site.2) e env (methodFault cfg p m site.2 e env false).1 = true := by
+  decide +kernel
 
 end Psutil.C20
